@@ -35,3 +35,20 @@ Lemma connect_v0_panic_iff : forall o, fst (new_peer CV0 o) = Conn_Panic <-> o_n
 Proof.
   intros [[] [] [] [] [] [] []]; vm_compute; split; intros; auto; discriminate.
 Qed.
+
+(* every event of an attempt, whatever fails and in both code versions, can be rendered: a failure event always
+   carries its error (so the listener of the client binary, which calls String() on every event, cannot panic) *)
+Lemma connect_events_render : forall v o, forallb render_ok (events (snd (new_peer v o))) = true.
+Proof. intros [] [[] [] [] [] [] [] []]; vm_compute; reflexivity. Qed.
+
+(* and a failed attempt that got as far as the broker or further has told the listener so, except when it is
+   SetRemoteDescription that refuses the answer (that failure is only returned to connectLoop, which logs it) *)
+Definition flagged (e : cevent) : bool :=
+  match e with Ev_offer true | Ev_rendezvous true | Ev_failed _ => true | _ => false end.
+
+Lemma connect_failure_reported : forall o, fst (new_peer CV1 o) = Conn_Err ->
+  existsb flagged (events (snd (new_peer CV1 o))) = true \/
+  (o_newpc o && o_createdc o && o_offer o && o_setlocal o && o_negotiate o = true /\ o_setremote o = false).
+Proof.
+  intros [[] [] [] [] [] [] []]; vm_compute; intros H; try discriminate; auto.
+Qed.
